@@ -103,6 +103,7 @@ type Config struct {
 	FT               int                 // value returned by FrontendType(): 0 = R1CS, 1 = SCS
 
 	mu       sync.Mutex
+	cmu      sync.Mutex
 	Events   []Event
 	seq      int
 	Sites    map[string]*SiteStat
@@ -143,6 +144,8 @@ type CheckRec struct {
 }
 
 func (c *Config) count(k string) {
+	c.cmu.Lock()
+	defer c.cmu.Unlock()
 	if c.Counters == nil {
 		c.Counters = map[string]int{}
 	}
@@ -571,7 +574,9 @@ type comp struct {
 func (c *comp) SetKeyValue(k, v any)  { c.Compiler.(kv).SetKeyValue(k, v) }
 func (c *comp) GetKeyValue(k any) any { return c.Compiler.(kv).GetKeyValue(k) }
 func (c *comp) Defer(cb func(frontend.API) error) {
+	c.b.cfg.cmu.Lock()
 	c.b.cfg.Deferred++
+	c.b.cfg.cmu.Unlock()
 	self := c.b.self
 	c.Compiler.Defer(func(_ frontend.API) error { return cb(self) })
 }
